@@ -10,13 +10,15 @@ import (
 	"testing/synctest"
 	"time"
 
+	"github.com/platinummonkey/go-concurrency-limits/core"
+	"github.com/platinummonkey/go-concurrency-limits/limit"
 	"pgregory.net/rapid"
 
 	"verifharness/kit"
 )
 
 type c11Op struct {
-	K       string `json:"k"` // arrive | release | sleep | cancel | setlimit
+	K       string `json:"k"` // arrive | release | sleep | cancel | setlimit | churn
 	N       int    `json:"n,omitempty"`
 	Idx     int    `json:"idx,omitempty"`
 	Outcome int    `json:"outcome,omitempty"`
@@ -77,6 +79,9 @@ func genC11(t *rapid.T) c11Case {
 		case k < 7:
 			return c11Op{K: "release", Idx: rapid.IntRange(0, 50).Draw(t, "idx"), Outcome: rapid.IntRange(0, 2).Draw(t, "outcome")}
 		case k < 10:
+			if rapid.IntRange(0, 11).Draw(t, "churn") == 0 {
+				return c11Op{K: "churn", N: rapid.SampledFrom([]int{10, 60, 127, 128, 129, 130, 200, 300}).Draw(t, "churnN"), Outcome: rapid.IntRange(0, 2).Draw(t, "churnOutcome")}
+			}
 			return c11Op{K: "sleep", D: rapid.SampledFrom([]int{1, 3, 5, 8, 8, 15, 30}).Draw(t, "d")}
 		case k < 11:
 			return c11Op{K: "cancel", Idx: rapid.IntRange(0, 50).Draw(t, "idx")}
@@ -99,7 +104,14 @@ func runC11(t *testing.T, c c11Case) kit.Outcome {
 
 func runC11InBubble(c c11Case) (out kit.Outcome) {
 	t0 := time.Now()
-	st, err := buildStack(c.Stack, nil, nil, t0)
+	// the limit algorithm is a settable one: a "setlimit" op moves the algorithm's estimate and the strategy together, as a
+	// window update does, so that sample windows closing later on (long histories) re-apply the same value
+	settable := limit.NewSettableLimit("c11", c.Stack.Limit, nil)
+	var lim core.Limit
+	if c.Stack.Kind != "fixedpool" {
+		lim = settable
+	}
+	st, err := buildStack(c.Stack, lim, nil, t0)
 	if err != nil {
 		return kit.Outcome{Harness: "stack: " + err.Error()}
 	}
@@ -172,7 +184,19 @@ func runC11InBubble(c c11Case) (out kit.Outcome) {
 		backlog = kept
 	}
 
-	for i, op := range c.Ops {
+	// churn(N) stands for N rounds of "a new caller arrives, the longest-held token is released": the backlog keeps
+	// its length while hand-off follows hand-off (a long-lived, permanently saturated limiter)
+	var ops []c11Op
+	for _, op := range c.Ops {
+		if op.K != "churn" {
+			ops = append(ops, op)
+			continue
+		}
+		for r := 0; r < op.N; r++ {
+			ops = append(ops, c11Op{K: "arrive"}, c11Op{K: "release", Idx: 0, Outcome: (op.Outcome + r) % 3})
+		}
+	}
+	for i, op := range ops {
 		switch op.K {
 		case "arrive-cancelled":
 			// a caller whose context is already done: with eviction it must not stay in line
@@ -266,8 +290,10 @@ func runC11InBubble(c c11Case) (out kit.Outcome) {
 			// usable capacity must leave the line untouched)
 			switch {
 			case st.simple != nil:
+				settable.SetLimit(op.N)
 				st.simple.SetLimit(op.N)
 			case st.precise != nil:
+				settable.SetLimit(op.N)
 				st.precise.SetLimit(op.N)
 			default:
 				continue
